@@ -3,7 +3,7 @@
 from harness import core, gen_tls, canon
 from harness.core import hx, unhx
 
-LEAN_MODULES = ['CpProps.C15']
+LEAN_MODULES = ['CpProps.C15', 'CpProps.C15Partial']
 RULE = ('generated client hellos (any version, ordered lists of known/unknown/GREASE cipher suites with and without the '
         'SCSV markers, extension sets of parsed, unparsed, GREASE and unknown types, supported-groups and point-format '
         'lists with GREASE and unknown values, with or without those extensions) are composed; JA3 is computed by the '
